@@ -86,6 +86,20 @@ def run(ck):
             emit("propagate_toplevel_nosimp", f, lambda x: rw.propagate_toplevel(x, env, do_simplify=False))
     verdicts, st = tlc.validate_events("Trace_Pure", evs, constants={"Seed": ck.seed % 1000, "Cap": 48 if quick else 128})
     ck.add_tlc(st)
+    # wide connectives (3 .. 14 operands): validated separately with a cap that makes the 2^10 interpretations exhaustive
+    n0 = len(evs)
+    for j in gen_corpus("WIDE", module="gen/Gen_Bool", deps=DEPS):
+        f = term_io.build_public(j, env)
+        emit("nnf", f, lambda x: rw.nnf(x, env))
+        emit("aig", f, lambda x: rw.aig(x, env))
+        emit("prenex", f, lambda x: rw.prenex_normal_form(x, env))
+        emit("conj_partition", f, lambda x: list(rw.conjunctive_partition(x)), parts=True)
+        emit("disj_partition", f, lambda x: list(rw.disjunctive_partition(x)), parts=True)
+    wide = evs[n0:]
+    vw, stw = tlc.validate_events("Trace_Pure", wide, constants={"Seed": ck.seed % 1000, "Cap": 1024})
+    ck.add_tlc(stw)
+    verdicts.update(vw)
+    ck.part("wide_connectives", events=len(wide), operands="3..14", interpretations="exhaustive (2^10)")
     byid = {e["id"]: e for e in evs}
     for i, fails in verdicts.items():
         e = byid[i]
